@@ -37,20 +37,6 @@ dvars == <<dg, dctx, dtab, stack, nodes, la, taken, ended, pulled, res>>
 NoTree == Leaf("", 0)
 Res(t, at, tree) == [t |-> t, at |-> at, tree |-> tree]
 
-RECURSIVE DAsSeq(_)
-DAsSeq(S) == IF S = {} THEN <<>> ELSE LET x == CHOOSE y \in S : TRUE IN <<x>> \o DAsSeq(S \ {x})
-
-DTables(C) ==
-  LET G == C.G
-      LS == LALRStates(C)
-      sq == DAsSeq(LS)
-      n == Len(sq)
-      inv == [I \in LS |-> (CHOOSE k \in 1..n : sq[k] = I) - 1]
-  IN [n |-> n, start |-> inv[LALRStart(C, LS)], cf |-> ConflictFreeIn(G, LS),
-      act |-> [k \in (0..(n - 1)) \X QT(G) |-> ExpectedCell(C, LS, inv, sq[k[1] + 1], k[2])],
-      go |-> [k \in (0..(n - 1)) \X G.nts |->
-                 IF k[2] \in SymsRightOfDot(G, sq[k[1] + 1]) THEN inv[LALRGoto(C, LS, sq[k[1] + 1], k[2])] ELSE -1]]
-
 DInit(GU) ==
   /\ dg \in GU
   /\ dctx = [G |-> dg, F |-> <<>>, NL |-> {}] /\ dtab = <<>>
